@@ -22,6 +22,8 @@ OPS = [
     ("{ me { pets { ... on Dog { name } ... on Cat { name lives } } best { ... on Named { name } } } }", {}),
     ("{ owned { owner { name } ... on Dog { owner { age } } } named { name } }", {}),
     ("{ echo color me { scores color } }", {}),
+    # arguments named like parameters that wrappers between the executor and the resolver are likely to have: they are the resolver's keyword arguments only
+    ("{ echo(func: \"f\", fn: \"g\", args: \"a\", kwargs: \"k\", self: \"s\", cls: \"c\", callback: \"b\", value: \"v\") count }", {}),
     ("mutation { a(n: 1) b { name } c d }", {}),
 ]
 
@@ -36,8 +38,10 @@ def explore(schema, query, variables, world, config, exp, cap, w, eager=()):
         got = H.run_request(schema, query, variables, world, config, schedule=sched, eager=eager)
         runs += 1
         tmax = max(tmax, got.get("tasks", 0))
+        if isinstance(w, dict) and not eager:
+            w.setdefault("_in_flight", {})[config] = max(w.get("_in_flight", {}).get(config, 0), got.get("max_parked", 0))
         kinds.add(got["outcome"])
-        ww = dict({k: v for k, v in w.items() if k != "_outcomes"}, config=config, schedule=list(sched.taken), completed_at_submit=sorted(eager))
+        ww = dict({k: v for k, v in w.items() if not k.startswith("_")}, config=config, schedule=list(sched.taken), completed_at_submit=sorted(eager))
         if got["outcome"] == "pending":
             fails.append(("execute:completes-when-all-resolvers-completed", ww, "all parked resolver tasks were run but the overall result is still pending"))
         else:
@@ -62,15 +66,23 @@ def _chunk(args):
             n += 1
             bad = compare(exp, got, ignore_below=abandoned_below(world))
             if bad:
-                fails.append((bad[0].replace("execute:", "runtime:"), dict({k: v for k, v in w.items() if k != "_outcomes"}, config=cfg), "%s: %s" % (cfg, bad[1])))
+                fails.append((bad[0].replace("execute:", "runtime:"), dict({k: v for k, v in w.items() if not k.startswith("_")}, config=cfg), "%s: %s" % (cfg, bad[1])))
         # the asyncio runtime in its default mode (plain resolvers offloaded to worker threads): same outcome, data, errors and resolver invocations
         got = H.run_request(H.make_schema(dset), query, variables, world, "executor-asyncio-offload")
         w["_outcomes"].add(got["outcome"])
         n += 1
         bad = compare(exp, got, ignore_below=abandoned_below(world))
         if bad:
-            fails.append((bad[0].replace("execute:", "runtime:"), dict({k: v for k, v in w.items() if k != "_outcomes"}, config="executor-asyncio-offload"),
+            fails.append((bad[0].replace("execute:", "runtime:"), dict({k: v for k, v in w.items() if not k.startswith("_")}, config="executor-asyncio-offload"),
                           "executor-asyncio-offload: %s" % bad[1]))
+        # ... and the thread-pool runtime on real worker threads
+        got = H.run_request_unguarded(H.make_schema(dset), query, variables, world, "executor-threadpool-real")
+        w["_outcomes"].add(got["outcome"])
+        n += 1
+        bad = compare(exp, got, ignore_below=abandoned_below(world))
+        if bad:
+            fails.append((bad[0].replace("execute:", "runtime:"), dict({k: v for k, v in w.items() if not k.startswith("_")}, config="executor-threadpool-real"),
+                          "executor-threadpool-real: %s" % bad[1]))
         for cfg, asyn in (("executor-threadpool", False), ("executor-asyncio", True)):
             r, t, f, ex = explore(H.make_schema(dset, asynchronous=asyn), query, variables, world, cfg, exp, cap, w)
             n += r
@@ -94,6 +106,13 @@ def _chunk(args):
                     fails += f2
         # whatever reading a configuration takes where the specification leaves a choice (a request failure or a field error for an unrepresentable
         # leaf), all configurations take the same one
+        # "every order in which pending results become available": what the thread pool has in flight together, the asyncio runtime has too (a runtime that
+        # starts the second deferred sibling only when the first is done cannot see them complete in the other order - or ever, if they wait for each other)
+        fl = w.pop("_in_flight", {})
+        # (requests that fail as a whole, or abandon work below a failed list, stop starting resolvers at different moments: not compared)
+        if exp[0] == "result" and not abandoned_below(world) and fl.get("executor-asyncio", 0) < fl.get("executor-threadpool", 0):
+            fails.append(("runtime:deferred-siblings-are-in-flight-together", dict({k: v for k, v in w.items() if not k.startswith("_")}, in_flight=fl),
+                          "the thread pool runtime had %d resolver tasks pending at once, the asyncio runtime never more than %d" % (fl["executor-threadpool"], fl.get("executor-asyncio", 0))))
         outs = {o for o in w.pop("_outcomes", set()) if o in ("result", "exception")}
         if len(outs) > 1:
             fails.append(("runtime:configurations-agree-on-the-kind-of-outcome", dict(w), "for the same request some configurations return a result and others fail the request"))
